@@ -155,7 +155,7 @@ class Check:
                 "known_findings_reported": [e.get("key") for _, e in knownhit],
                 "violations": [v.to_json() for v in real],
                 "tree": self.tree if hasattr(self, "tree") else None,
-                "exhaustive": False,
+                "exhaustive": bool(getattr(self, "coverage_exhaustive", False)),
             },
             "assumptions": self.assumptions,
             "wall_s": round(time.time() - self.t0, 2),
@@ -167,3 +167,29 @@ class Check:
             self.pid, self.tier, ",".join(self.configs), self.obligations, self.discharged, len(real),
             len(knownhit), time.time() - self.t0))
         return 1 if real else 0
+
+
+def import_rows(chk, cfg, owner, modname, rules):
+    """Evaluate, for one configuration, the rows of another property's module that this property depends on.
+    A violation in an imported row is reported under the importing property too, tagged via=<owner>."""
+    sub = Check(owner, chk.tier, chk.seed)
+    sub.cfg = cfg.name
+    m = __import__(modname, fromlist=["x"])
+    one = type("OneCfg", (), {"configs": lambda self, need_all_features=False: [cfg], "decls": {}, "tier": chk.tier,
+                              "bitvec_version": lambda self: "1.1.1", "cfg": lambda self, n: cfg})()
+    try:
+        m.run(one, sub)
+    except Exception as e:   # pragma: no cover
+        chk.cannot("import/" + owner, owner, "imported rows could not be evaluated: %r" % e)
+        return
+    n = 0
+    for k, v in sub.violations.items():
+        if any(v.rule.startswith(r) for r in rules):
+            chk.ob("via=%s/%s" % (owner, v.rule), v.anchor, False, v.detail, v.where, v.kind)
+    for r, cnt in sub.rule_sites.items():
+        if any(r.startswith(x) for x in rules):
+            n += cnt
+            bad = len([v for v in sub.violations.values() if v.rule == r])
+            for _ in range(max(0, cnt - bad)):
+                chk.ob("via=%s/%s" % (owner, r), owner, True)
+    chk.count("imported rows from %s[%s]" % (owner, cfg.name), n)
